@@ -13,6 +13,7 @@ PROP = "C13"
 def w_hist(exe, pool, programs, extra, src):
     part = HM.new_part()
     mdl = _model.Model()
+    ref = HM.failed_setup_reference(exe)
     traces, crashes = HM.run_histories(exe, pool, programs)
     for idx, sig, err in crashes:
         p = programs[idx] if 0 <= idx < len(programs) else []
@@ -21,7 +22,7 @@ def w_hist(exe, pool, programs, extra, src):
     for prog, tr in zip(programs, traces):
         if tr is None:
             continue
-        HM.check_trace(prog, tr, mdl, part, extra=extra, src=src)
+        HM.check_trace(prog, tr, mdl, part, extra=extra, src=src, setup_ref=ref)
         n += 1
     part["distinct"] = len(programs)
     part["counters"][src + ".histories"] += n
